@@ -5,7 +5,9 @@
    chunk followed by its indentation chunk of k units (no chunk when the stream writes none: k = 0).
    [Lines] threads the obligation "k = open elements, one less when the first text on the line is a
    closing tag" through the list: it is discharged by the first non-empty chunk after the break, by
-   the next line break (an empty line) or by the end of the list. *)
+   the next line break (an empty line) or by the end of the list.  A closing tag that discharges it
+   moreover owes [AP P k] to the chunks P before it: instantiated with [aligned_at] (the opening tag
+   of the innermost open element stands on a line with the same k units) this gives close_aligned. *)
 From Coq Require Import ZArith List Bool Lia ZifyBool.
 From Emmet Require Import lib.Base model.MarkupTokenizer model.MarkupParser model.MarkupConvert
      model.OutStream model.FormatHtml proofs.IndentStream proofs.HtmlEvents proofs.OutStreamProofs proofs.FormatSteps
